@@ -89,7 +89,7 @@ def _base_seq(rng, ver):
 def generate(rng, tier):
     mult = 1 if tier == 'quick' else 4
     cases = []
-    for _ in range(700 * mult):
+    for _ in range(2500 * mult):
         ver = rng.choice((4, 6))
         seq = _base_seq(rng, ver)
         cases.append(_case(seq, 'span/v%d/n%d' % (ver, min(len(seq), 4)), rng.choice(['list', 'list', 'tuple', 'iter'])))
@@ -99,7 +99,7 @@ def generate(rng, tier):
         dup = list(seq) + [rng.choice(seq) for _ in range(rng.randrange(1, 3))]
         rng.shuffle(dup)
         cases.append(_case(dup, 'span/dup'))
-    for _ in range(60 * mult):
+    for _ in range(200 * mult):
         ver = rng.choice((4, 6))
         seq = _base_seq(rng, ver)
         r = rng.random()
